@@ -33,6 +33,8 @@ fn print_exec(prog: &Prog, o: &Outcome, out: &mut impl std::io::Write) {
     for l in &o.trace {
         writeln!(out, "{l}").unwrap();
     }
+    let sc: Vec<String> = o.decisions.iter().map(|d| d.chosen.to_string()).collect();
+    writeln!(out, "sched {}", sc.join(" ")).unwrap();
     writeln!(out, "end").unwrap();
 }
 
@@ -50,6 +52,7 @@ fn main() {
     if std::env::var("VERIF_LOG").is_err() {
         iceoryx2_log::set_logger(&QUIET);
     }
+    std::panic::set_hook(Box::new(|_| {}));
     let component = argv[1].as_str();
     let a = common::parse_args(&argv[2..]);
     let mut preempt = 2usize;
